@@ -143,19 +143,16 @@ def build(prop_id, groups, log):
         log("coq up to date in %.1fs (consts changed: %s)" % (time.time() - t0, r.consts_changed))
         # 4. OCaml driver
         t0 = time.time()
-        ob = os.path.join(VERIF, "ocaml", "_build")
+        od = os.path.join(VERIF, "ocaml")
+        ob = os.path.join(od, "_build")
         os.makedirs(ob, exist_ok=True)
-        srcs = [os.path.join(COQ, "clemens_model.ml"), os.path.join(COQ, "clemens_model.mli"),
-                os.path.join(VERIF, "ocaml", "conv.ml"), os.path.join(VERIF, "ocaml", "driver.ml")]
+        srcs = [os.path.join(COQ, "clemens_model.ml"), os.path.join(COQ, "clemens_model.mli")] + \
+            sorted(os.path.join(od, f) for f in os.listdir(od) if f.endswith(".ml") or f.endswith(".sh"))
         stamp = "".join(file_hash(s) or "" for s in srcs)
         stampf = os.path.join(ob, "stamp")
         old = open(stampf).read() if os.path.exists(stampf) else ""
         if old != stamp or not os.path.exists(DRIVER):
-            for s in srcs:
-                shutil.copyfile(s, os.path.join(ob, os.path.basename(s)))
-            rc, out = sh(["ocamlfind", "ocamlopt", "-O2", "-w", "-a", "-package", "str", "-linkpkg",
-                          "clemens_model.mli", "clemens_model.ml", "conv.ml", "driver.ml", "-o", "driver"],
-                         cwd=ob, timeout=900)
+            rc, out = sh([os.path.join(od, "build.sh")], timeout=1800)
             if rc != 0:
                 r.ok = False
                 r.model_broken = True
